@@ -12,7 +12,7 @@ CLAIMS = {
         'design_ref': 'DESIGN.md §6 C01',
     },
     'C02': {
-        'text': 'Theorem C02_refines: for every three-card flop, every list of player ranges (any sizes, empty allowed) and every scope, draining the iterator model '
+        'text': 'Theorem C02_refines: for every three-card flop, every list of player ranges (any sizes, empty allowed) and every valid scope (from <= to, both positions of the 49-card deck or the terminal (48,49)), draining the iterator model '
                 'returns exactly the showdowns of the legal deals of the list comprehension Spec.deals, position by position, each once, nothing else; C02_payload: '
                 'board = flop ++ [turn, river], combos in player order, probability = left-to-right product. Proved by induction over positions x odometer (no bound on range sizes). C02_exactly_once / deals_mem_iff / deals_nodup / unordered_once / deck49_spec: the enumeration holds a showdown for every unordered turn/river pair of the 49 unseen cards (in ace-to-deuce, s-h-d-c order) and every choice of one combo per player with all 5+2n cards distinct, each exactly once, and nothing else.',
         'note': 'Lean kernel + standard axioms; hand-written model of the iterator (Model/Iter.lean) tied by the correspondence with the hash-map iteration order as an input; '
@@ -38,7 +38,7 @@ CLAIMS = {
         'text': 'C08_total: for every proper input (ranges of any size, empty allowed) and scope the drain returns normally - no panic arm (index out of range, unwrap) is '
                 'reachable and the loop fuel is never exhausted; C08_empty: an empty range makes the enumeration empty; C08_yield_bound; C08_no_recursion: the source of fn next '
                 'contains no self call (read by the translator each run). PARTIAL: native stack use and allocator failure are runtime facts outside any Lean model; they are '
-                'observed by child-process drains on a 2 MiB thread stack in the debug and the release build on the generated worst cases. C08_u8 / C08_advance_arith: on every reachable state (one step at a time, skip loops included) turn <= 48, river <= 49, turn < river and every counter is below its range\'s length, so no u8/usize arithmetic of the crate overflows in either profile; C08_steps: the exact number of loop iterations. C08_total_le / C02_refines_le: the same for ranges that hold degenerate pairs (CardPair::new(c, c), reachable through collect()): such a combo is skipped, never a panic (C08_degenerate_skipped).',
+                'observed by child-process drains on a 2 MiB thread stack in the debug and the release build on the generated worst cases. C08_u8 / C08_advance_arith: on every reachable state (one step at a time, skip loops included) turn <= 48, river <= 49, turn < river and every counter is below its range\'s length, so no u8/usize arithmetic of the crate overflows in either profile; C08_steps: the exact number of loop iterations. C08_total_le / C02_refines_le: the same for ranges that hold degenerate pairs (CardPair::new(c, c), reachable through collect()): such a combo is skipped, never a panic (C02_refines_le / C08_total_le: the drain equals the deals of the specification, in which a degenerate choice is illegal); C08_degenerate_skipped: a range made only of degenerate pairs yields the empty enumeration by skipping to the scope end.',
         'note': 'as C02; plus: the model counters are unbounded naturals like the usize counters of the repaired code (u8 arithmetic remains only in positions < 256); '
                 'the 2 MiB stack claim is witnessed, not proved.',
         'design_ref': 'DESIGN.md §6 C08',
@@ -56,14 +56,14 @@ CLAIMS = {
                 '6/4/12 combos are present with that weight; C12_orphans: the leftover view is exactly the range minus the combos of reported rank pairs; C12_disjoint + C12_cover: '
                 'every combo of the range lies in exactly one of the two views with its weight. General proofs (closed form of rank_pairs, probe soundness, classification of combos). C12_*_contents: the same statements needing only that == is equality on the weights looked up (any such domain, e.g. weights above 1), with hypotheses on the contents rather than the insert history; rankPairs_agree / orphans_agree: the oracle\'s specification views equal the model\'s views.',
         'note': 'Lean kernel + standard axioms; hand-written model of rank_pairs / orphan_card_pairs tied by the correspondence (all 3^6 / 3^4 patterns per rank pair, offsuit patterns, whole ranges); '
-                'assumption: on the weight domain f32 == is equality (NaN and -0.0 excluded); combo lists of a rank pair are read from the source each run.',
+                'assumption: on the weights looked up f32 == is equality (true for every f32 except NaN; a range cannot hold -0.0 since D11); for arbitrary weights incl. NaN, infinities and weights outside [0,1] the two views are compared with the specification by the range_views correspondence only; combo lists of a rank pair are read from the source each run.',
         'design_ref': 'DESIGN.md §6 C12',
     },
     'C17': {
         'text': 'C17_canonical: two construction histories with the same lookup print identically (and have the same rank-pair and leftover views) - the formatter reads the range '
                 'only through lookup; C17_runs: for every row and every table the run-length state machine emits exactly one token per maximal run computed by Spec.runs (X+ iff the run '
                 'starts at the top with length >= 2, single iff length 1, X-Y otherwise); C17_runs_maximal: the runs are disjoint, cover every present entry, are weight-constant, and two '
-                'touching runs carry different weights (no two tokens could be merged); C17_order: pocket row, then per high card suited then offsuit row, then leftovers. C17_text: what the text is (pocket row, per high card the suited and the offsuit row, leftovers; each row the run tokens of the true rank-pair table); C17_no_mergeable_neighbours: consecutive tokens of a row are separated by an unreported rank pair or carry different weights - with no reflexivity assumed (a NaN-weighted rank pair is never reported).',
+                'touching runs carry different weights (no two tokens could be merged); C17_order: pocket row, then per high card suited then offsuit row, then leftovers. C17_text (under: == is equality on the weights looked up): what the text is (pocket row, per high card the suited and the offsuit row, leftovers; each row the run tokens of the true rank-pair table); C17_no_mergeable_neighbours: consecutive tokens of a row are separated by an unreported rank pair or carry different weights - with no reflexivity assumed (a NaN-weighted rank pair is never reported).',
         'note': 'Lean kernel + standard axioms; hand-written model of Display for HandRange tied by the correspondence (eight construction histories incl. parse vs collect vs unsized iterators; exact text compared '
                 'incl. f32 text); that the real formatter never iterates the hash map for output order is what the correspondence checks.',
         'design_ref': 'DESIGN.md §6 C17',
@@ -105,7 +105,7 @@ CLAIMS = {
     'C05': {
         'text': 'C05_token: every well-formed token (all shapes: RR, RR+, RR-SS, XYs/o in either order, XYs/o+, XYs/o-XZs/o, two different cards in either order), with or without a weight of the grammar, '
                 'parses and expands to exactly the list of combos Spec.denote gives (standard notation, written independently of the crate), each once, each with the token\'s weight (1 when omitted); '
-                'C05_list: for any list of such tokens joined by commas with spaces anywhere, lookup of every combo is the weight of the LAST token denoting it; C05_empty: the empty / all-space string is the empty range. C05_notation_unambiguous: well-formed tokens with equal text are equal (the standard meaning of a text is well defined); C05_oracle_reader_complete: the reader by which the correspondence oracle attaches Spec.denote to a request recognises every well-formed token. C05_token_weight / C05_list_weight: the weight clause without a defaulting read, under the named hypothesis that every text of the weight grammar is a number (validated each run).',
+                'C05_list: for any list of such tokens joined by commas with spaces anywhere, lookup of every combo is the weight of the LAST token denoting it; C05_empty: the empty / all-space string is the empty range. C05_notation_unambiguous: well-formed tokens with equal text are equal (the standard meaning of a text is well defined); C05_oracle_reader_complete: the reader by which the correspondence oracle attaches Spec.denote to a request recognises every well-formed token. C05_token_weight / C05_list_weight: the weight clause without a defaulting read, under the named hypothesis that every text of the weight grammar is a number (checked each run on a seeded sample of 10^6 grammar texts, not exhaustively).',
         'note': 'Lean kernel + standard axioms; assumption: "" is not a number for f32::from_str (named hypothesis); hand-written model of the parser tied by the correspondence (all 3,809 well-formed shapes x weight literals, '
                 'expansion order compared with the model, expansion set with Spec.denote); regex crate modelled by a derivative semantics of the pattern subset used; the recognisers of the parser model are proved equal to that semantics of the literals read from the source on every run (C09_regex_semantics).',
         'design_ref': 'DESIGN.md §6 C05',
@@ -113,7 +113,7 @@ CLAIMS = {
     'C06': {
         'text': 'C06_range: for every range whose combos are pairs of distinct cards with weights in the domain, showRange succeeds and parseRange of that text yields a range with the same lookup for '
                 'every combo - however the combos group into complete rank pairs, runs of adjacent rank pairs with equal weight, or leftovers; C06_token: the text of every token satisfying the parser\'s '
-                'own well-formedness conditions (every emitted and every parsed token) parses back to the identical token. Proved from the run/cover theorems (C17, C12) and the closed forms of the seven parser branches. C06_range_contents: hypotheses on the contents only (overwritten inserts are irrelevant); C06_collect: ranges built by the public FromIterator as repaired by D11 (-0.0 stored as +0.0) satisfy the hypothesis.',
+                'own well-formedness conditions (every emitted and every parsed token) parses back to the identical token. Proved from the run/cover theorems (C17, C12) and the closed forms of the seven parser branches. C06_range_contents: hypotheses on the contents only (overwritten inserts are irrelevant); C06_collect: a range collected entry by entry through an abstract per-weight normalisation that maps the unit interval into the domain satisfies the hypothesis (for canonical combos); that the FromIterator of the crate, as repaired by D11, is this collection with -0.0 stored as +0.0 is hand-modelled in the driver and tied by the range_ops / canon correspondence, not read by the translator.',
         'note': 'Lean kernel + standard axioms; the f32 text assumptions are the named hypotheses of WTextOk (== is equality on the domain, a weight other than 1 prints in the weight grammar, print-then-parse is the '
                 'identity, "" is not a number) - validated by the harness, not proved; domain = bit patterns 0x00000000..=0x3F800000 (-0.0, NaN excluded); model tied by the correspondence (the crate\'s own reparse == original on every generated range).',
         'design_ref': 'DESIGN.md §6 C06',
@@ -126,7 +126,7 @@ CLAIMS = {
     },
     'C13': {
         'text': 'All statements are finite and over data regenerated from the Rust source; each is a kernel evaluation (decide) lifted to the quantified form, or a '
-                'structural proof (two-character texts). The correspondence is exhaustive over the same finite domains. rank_range_total / suit_range_total: every ordered endpoint pair gives the contiguous run or the slice panic (reversed endpoints included); card_text_spec / parse_card_spec: all 52 texts are the standard ones and exactly they are accepted, against an independent vocabulary (Spec/Cards).',
+                'structural proof (two-character texts). The correspondence is exhaustive over the same finite domains. rank_range_total / suit_range_total: every ordered endpoint pair gives the contiguous run or the slice panic (reversed endpoints included); card_text_spec / parse_card_spec: all 52 texts are the standard ones and among all two-byte texts exactly they are accepted (parse_card_spec_all; other lengths are rejected by short_text_rejected / the length test), against an independent vocabulary (Spec/Cards).',
         'note': 'Lean kernel; translator; hand-written semantics of match / if-chain / slice in Model/Card.lean validated by exhaustive correspondence.',
         'design_ref': 'DESIGN.md §6 C13',
     },
